@@ -37,6 +37,85 @@ fn edit_random(rng: &mut Rng, p: &Program, pred: &dyn Fn(&Tm) -> bool, edit: &dy
     Some(q)
 }
 
+/// names bound anywhere inside a term (let variables, labels, clause binders)
+fn binders_of(t: &Tm, out: &mut Vec<String>) {
+    match t {
+        Tm::Lit(_) | Tm::NegZero | Tm::BigLit(_) | Tm::Var(_) => {}
+        Tm::Call(_, a) | Tm::Ctor(_, a) => a.iter().for_each(|x| binders_of(x, out)),
+        Tm::Paren(a) | Tm::Exit(a) | Tm::Goto(_, a) => binders_of(a, out),
+        Tm::Label(l, a) => { out.push(l.clone()); binders_of(a, out); }
+        Tm::Op(a, _, b) | Tm::Print(_, a, b) => { binders_of(a, out); binders_of(b, out); }
+        Tm::Let(x, _, a, b) => { out.push(x.clone()); binders_of(a, out); binders_of(b, out); }
+        Tm::If { fst, snd, thn, els, .. } => { binders_of(fst, out); if let Some(s) = snd { binders_of(s, out); } binders_of(thn, out); binders_of(els, out); }
+        Tm::Dtor(s, _, _, a) => { binders_of(s, out); a.iter().for_each(|x| binders_of(x, out)); }
+        Tm::Case(s, _, cs) => { binders_of(s, out); for c in cs { out.extend(c.binders.iter().cloned()); binders_of(&c.body, out); } }
+        Tm::New(cs) => { for c in cs { out.extend(c.binders.iter().cloned()); binders_of(&c.body, out); } }
+    }
+}
+
+/// Scope leak: a variable occurrence (or, with `lits`, a literal) is replaced by a name that IS bound
+/// somewhere (pool `cands`, or the binders of the sibling clauses when `siblings`) but is NOT in scope at
+/// that point.  The walker counts the (site, name) pairs; the `target`-th one is edited.
+struct Leak { siblings: bool, cands: Vec<String>, sibs: Vec<String>, target: usize, count: usize, done: bool }
+impl Leak {
+    fn pick(&mut self, scope: &[String]) -> Option<String> {
+        let pool = if self.siblings { self.sibs.clone() } else { self.cands.iter().filter(|c| !self.sibs.contains(c)).cloned().collect::<Vec<_>>() };
+        let mut seen: Vec<String> = vec![];
+        for c in pool { if seen.contains(&c) || scope.contains(&c) { continue; } seen.push(c.clone());
+            let h = !self.done && self.count == self.target; self.count += 1; if h { self.done = true; return Some(c); } }
+        None
+    }
+    fn clauses(&mut self, cs: &mut Vec<Clause>, scope: &mut Vec<String>) {
+        let all: Vec<(String, Vec<String>)> = cs.iter().map(|c| (c.xtor.clone(), c.binders.clone())).collect();
+        for c in cs.iter_mut() {
+            let (n0, s0) = (scope.len(), self.sibs.len());
+            for (x, bs) in all.iter() { if *x != c.xtor { for b in bs { if !c.binders.contains(b) { self.sibs.push(b.clone()); } } } }
+            scope.extend(c.binders.iter().cloned());
+            self.term(&mut c.body, scope);
+            scope.truncate(n0); self.sibs.truncate(s0);
+        }
+    }
+    fn term(&mut self, t: &mut Tm, scope: &mut Vec<String>) {
+        if self.done { return; }
+        match t {
+            Tm::Var(_) => { if let Some(c) = self.pick(scope) { *t = Tm::Var(c); } }
+            Tm::Lit(_) => { if self.siblings { if let Some(c) = self.pick(scope) { *t = Tm::Var(c); } } }
+            Tm::NegZero | Tm::BigLit(_) => {}
+            Tm::Call(_, a) | Tm::Ctor(_, a) => a.iter_mut().for_each(|x| self.term(x, scope)),
+            Tm::Paren(a) | Tm::Exit(a) => self.term(a, scope),
+            Tm::Goto(l, a) => { if let Some(c) = self.pick(scope) { *l = c; return; } self.term(a, scope); }
+            Tm::Label(l, a) => { scope.push(l.clone()); self.term(a, scope); scope.pop(); }
+            Tm::Op(a, _, b) | Tm::Print(_, a, b) => { self.term(a, scope); self.term(b, scope); }
+            Tm::Let(x, _, a, b) => { self.term(a, scope); scope.push(x.clone()); self.term(b, scope); scope.pop(); }
+            Tm::If { fst, snd, thn, els, .. } => { self.term(fst, scope); if let Some(s) = snd { self.term(s, scope); } self.term(thn, scope); self.term(els, scope); }
+            Tm::Dtor(s, _, _, a) => { self.term(s, scope); a.iter_mut().for_each(|x| self.term(x, scope)); }
+            Tm::Case(s, _, cs) => { self.term(s, scope); self.clauses(cs, scope); }
+            Tm::New(cs) => self.clauses(cs, scope),
+        }
+    }
+    fn program(&mut self, p: &mut Program) {
+        let params: Vec<(String, Vec<String>)> = p.decls.iter().filter_map(|d| if let Decl::Def(d) = d { Some((d.name.clone(), d.params.iter().map(|q| q.name.clone()).collect())) } else { None }).collect();
+        for d in p.decls.iter_mut() { if let Decl::Def(d) = d {
+            let mut c = vec![]; binders_of(&d.body, &mut c);
+            for (f, ps) in params.iter() { if *f != d.name { c.extend(ps.iter().cloned()); } }
+            c.sort(); c.dedup(); self.cands = c; self.sibs.clear();
+            let mut scope: Vec<String> = d.params.iter().map(|q| q.name.clone()).collect();
+            self.term(&mut d.body, &mut scope);
+        } }
+    }
+}
+/// a random scope-leak mutant (`siblings`: the leaked name is a sibling clause's binder), `None` without sites
+pub fn scope_leak(rng: &mut Rng, p: &Program, siblings: bool) -> Option<Program> {
+    let mut q = p.clone();
+    let mut w = Leak { siblings, cands: vec![], sibs: vec![], target: usize::MAX, count: 0, done: false };
+    w.program(&mut q);
+    if w.count == 0 { return None; }
+    let mut q = p.clone();
+    let mut w = Leak { siblings, cands: vec![], sibs: vec![], target: rng.below(w.count), count: 0, done: false };
+    w.program(&mut q);
+    if w.done { Some(q) } else { None }
+}
+
 pub fn mutate_ill_typed(rng: &mut Rng, g: &GenProg) -> Vec<(String, String)> {
     let p = &g.ast;
     let mut out: Vec<(String, Program)> = Vec::new();
@@ -78,6 +157,11 @@ pub fn mutate_ill_typed(rng: &mut Rng, g: &GenProg) -> Vec<(String, String)> {
     push("unbound_variable", edit_random(rng, p, &|t| matches!(t, Tm::Lit(_)), &|t, _| *t = Tm::Var("zz_unbound".into())));
     push("unbound_covariable", edit_random(rng, p, &|t| matches!(t, Tm::Lit(_)), &|t, _| *t = Tm::Goto("zz_unbound".into(), Box::new(Tm::Lit(0)))));
     push("undefined_function", edit_random(rng, p, &|t| matches!(t, Tm::Lit(_)), &|t, _| *t = Tm::Call("zz_undefined".into(), vec![])));
+
+    // a name bound elsewhere in the definition / program, used where it is not in scope: a sibling clause's
+    // binder; a let variable, label, clause binder outside its scope or another definition's parameter
+    push("scope_leak_sibling_binder", scope_leak(rng, p, true));
+    push("scope_escape", scope_leak(rng, p, false));
 
     // clauses: missing / extra / duplicated, wrong number of binders
     push("clause_missing", edit_random(rng, p, &|t| matches!(t, Tm::Case(_, _, cs) | Tm::New(cs) if !cs.is_empty()), &|t, r| if let Tm::Case(_, _, cs) | Tm::New(cs) = t { let i = r.below(cs.len()); cs.remove(i); }));
